@@ -368,7 +368,9 @@ class Study:
         Returns:
             A list with names for each dimension of the returned values of the objective function.
         """
-        return self._storage.get_study_system_attrs(self._study_id).get(_SYSTEM_ATTR_METRIC_NAMES)
+        return copy.deepcopy(
+            self._storage.get_study_system_attrs(self._study_id).get(_SYSTEM_ATTR_METRIC_NAMES)
+        )
 
     def optimize(
         self,
